@@ -267,6 +267,8 @@ pub fn run_case(case: &Case, prefix: Vec<u32>) -> Run {
                     None => ("the frontend's cluster is unknown and has no backend", vec![503]),
                     Some(c) if c.https_redirect => ("the cluster redirects to https", vec![301]),
                     Some(_) if worker_ref.backends.get(cid).is_none_or(|b| b.is_empty()) => ("the cluster has no backend", vec![503]),
+                    // a plain HTTP/1.1 cluster without health checks whose backends all listen: it must work
+                    Some(c) if c.http2 != Some(true) && c.health_check.is_none() => ("the cluster forwards to a live backend", vec![200]),
                     Some(_) => ("the cluster forwards", vec![200, 502, 503, 504]),
                 },
             },
